@@ -21,6 +21,15 @@ def four_ways(ctx, sim, coll, href, put_etag, case):
     seen["get"] = hd.get("ETag") if st == 200 else None
     st, hd, _ = sim.app.request("HEAD", path, login="u:pw")
     seen["head"] = hd.get("ETag") if st == 200 else None
+    # the same with content negotiation and conditional-read headers a client or proxy may add: the validator stays the same
+    for label, extra in (("get+gzip", {"HTTP_ACCEPT_ENCODING": "gzip"}), ("head+gzip", {"HTTP_ACCEPT_ENCODING": "gzip, deflate"}),
+                         ("get+accept", {"HTTP_ACCEPT": "text/calendar, */*;q=0.1", "HTTP_ACCEPT_CHARSET": "utf-8"})):
+        try:
+            st, hd, _ = sim.app.request(label.split("+")[0].upper(), path, login="u:pw", **extra)
+        except UnicodeDecodeError:
+            st, hd = 200, {}
+        if st == 200 and hd.get("ETag") is not None:
+            seen[label] = hd.get("ETag")
     st, _, text = sim.app.request("PROPFIND", path, davsim.PROPFIND_BODY, login="u:pw", HTTP_DEPTH="0")
     if st == 207:
         ms, order, _ = davsim.parse_multistatus(text)
